@@ -36,6 +36,7 @@ CONSTANTS Rooms,     \* rooms the client calls on
           MaxEnv,    \* bound on environment steps (MC only)
           MaxFlight, \* bound on unprocessed stanzas (MC only)
           Alphabet,  \* stanzas the room may send (MC only)
+          Splits,    \* whether the room may deliver a stanza in two pieces (MC only)
           Dev        \* named deviations (re-introduced defects), {} = the property
 
 Me == "me"
@@ -58,13 +59,14 @@ VARIABLES
   memAt,                   \* membership of the room when the call started
   mem, has,                \* the specification's membership per room; rooms with a Channel object
   inflight,                \* stanzas sent by the room and not yet processed by the serve loop
-  cbs, ups,                \* callback invocations since the last processed stanza
+  cbs, ups,                \* invitations handed to the callbacks (a sequence) / user-presence callbacks since the last processed stanza
   viol, nenv,
   \* mechanism
-  managed, jbuf, depart, jflag, pc, sent
+  managed, jbuf, depart, jflag, pc, sent,
+  hold                     \* the call whose sender goroutine has been handed the error reply and has not closed it yet
 
 ovars == <<kind, room, st, res, cancelled, wire, cand, owed, dirty, memAt, mem, has, inflight, cbs, ups, viol, nenv>>
-mvars == <<managed, jbuf, depart, jflag, pc, sent>>
+mvars == <<managed, jbuf, depart, jflag, pc, sent, hold>>
 vars == <<ovars, mvars>>
 
 OInit ==
@@ -73,10 +75,10 @@ OInit ==
   /\ cancelled = {} /\ wire = {} /\ cand = [c \in CallSet |-> {}] /\ owed = {} /\ dirty = {}
   /\ memAt = [c \in CallSet |-> None]
   /\ mem = [r \in Rooms |-> "out"] /\ has = {}
-  /\ inflight = <<>> /\ cbs = 0 /\ ups = 0 /\ viol = {} /\ nenv = 0
+  /\ inflight = <<>> /\ cbs = <<>> /\ ups = 0 /\ viol = {} /\ nenv = 0
 MInit ==
   /\ managed = {} /\ jbuf = [r \in Rooms |-> <<>>] /\ depart = [r \in Rooms |-> 0]
-  /\ jflag = [r \in Rooms |-> FALSE] /\ pc = [c \in CallSet |-> "idle"] /\ sent = {}
+  /\ jflag = [r \in Rooms |-> FALSE] /\ pc = [c \in CallSet |-> "idle"] /\ sent = {} /\ hold = None
 Init == OInit /\ MInit
 
 Pending(c) == st[c] = "pending"
@@ -115,9 +117,11 @@ OCancel(c) ==
   /\ st[c] # "idle" /\ cancelled' = cancelled \cup {c}
   /\ UNCHANGED <<kind, room, st, res, wire, cand, owed, dirty, memAt, mem, has, inflight, cbs, ups, viol>>
 
-(* the room sends stanza s = [ty, room, nick, call, n] *)
-OSend(s) ==
+(* the room begins to send stanza s = [ty, room, nick, call, n, lay, pw]; part: only a first  *)
+(* piece of its bytes is delivered for now (the remainder follows with ORest)                *)
+OSend(s, part) ==
   /\ inflight' = Append(inflight, [ty |-> s.ty, room |-> s.room, nick |-> s.nick, call |-> s.call, n |-> s.n,
+                                   lay |-> s.lay, pw |-> s.pw, part |-> part,
                                    after |-> {c \in wire : Pending(c) /\ c \notin cancelled}])
   /\ cand' = [c \in CallSet |-> IF Pending(c)
                                 THEN cand[c] \cup (IF Positive(s, c) THEN {"ok"} ELSE {})
@@ -125,6 +129,33 @@ OSend(s) ==
                                 ELSE cand[c]]
   /\ dirty' = dirty \cup {c \in CallSet : Pending(c) /\ kind[c] \in JoinKinds /\ SelfUn(s, room[c])}
   /\ UNCHANGED <<kind, room, st, res, cancelled, wire, owed, memAt, mem, has, cbs, ups, viol>>
+
+(* the remainder of the partly delivered stanza arrives *)
+Partial == \E i \in 1..Len(inflight) : inflight[i].part
+ORest ==
+  /\ inflight' = [i \in 1..Len(inflight) |-> [inflight[i] EXCEPT !.part = FALSE]]
+  /\ UNCHANGED <<kind, room, st, res, cancelled, wire, cand, owed, dirty, memAt, mem, has, cbs, ups, viol>>
+
+(* INVITATIONS.  An invitation message (ty = "inv") has the children lay (document order):   *)
+(* "b" body, "t" thread, "u" the muc#user payload with n <invite/> elements (each with its   *)
+(* own reason, numbered 0..n-1) and, if pw, the password; "c" a jabber:x:conference element  *)
+(* = one direct invitation to h.room (reason number 9, the password if pw).  The order of    *)
+(* the children of a stanza carries no meaning.  The property: every mediated invitation     *)
+(* reaches the client's callback, every direct one the function registered for direct        *)
+(* invitations, each exactly once, with its fields; nothing else reaches them.               *)
+HasChild(h, k) == \E i \in 1..Len(h.lay) : h.lay[i] = k
+PwOf(h) == IF h.pw THEN "ok" ELSE "none"
+Mediated(h) == IF h.ty = "inv" /\ HasChild(h, "u")
+               THEN [i \in 1..h.n |-> [kind |-> "med", ns |-> "user", k |-> i - 1, pw |-> PwOf(h), room |-> "-"]]
+               ELSE <<>>
+Direct(h) == IF h.ty = "inv" /\ HasChild(h, "c")
+             THEN <<[kind |-> "dir", ns |-> "conf", k |-> 9, pw |-> PwOf(h), room |-> h.room]>>
+             ELSE <<>>
+Invitations(h) == Mediated(h) \o Direct(h)
+OfKind(sq, kd) == SelectSeq(sq, LAMBDA x : x.kind = kd)
+CountIn(x, sq) == Cardinality({i \in 1..Len(sq) : sq[i] = x})
+SameBag(a, b) == /\ Len(a) = Len(b)
+                 /\ \A i \in 1..Len(a) : CountIn(a[i], a) = CountIn(a[i], b)
 
 (* the serve loop has finished with the oldest unprocessed stanza; d = what the handler saw *)
 HandledMatches(h, d) ==
@@ -143,9 +174,11 @@ OHandled(d) ==
      /\ owed' = owed \cup {c \in h.after : /\ Pending(c) /\ c \notin dirty
                                              /\ Decisive(h, c)
                                              /\ (kind[c] = "leave" => memAt[c] = "in")}
-     /\ viol' = viol \cup (IF cbs # (IF h.ty = "inv" THEN h.n ELSE 0) THEN {"C18_InviteExactlyOnce"} ELSE {})
+     /\ viol' = viol \cup (IF SameBag(OfKind(cbs, "med"), Mediated(h)) THEN {} ELSE {"C18_InviteExactlyOnce"})
+                     \cup (IF SameBag(OfKind(cbs, "dir"), Direct(h)) /\ Len(OfKind(cbs, "med")) + Len(OfKind(cbs, "dir")) = Len(cbs)
+                           THEN {} ELSE {"C18_DirectInviteExactlyOnce"})
                      \cup (IF h.room \notin has /\ h.ty \in {"av", "un"} /\ ups > 0 THEN {"C18_ForeignIgnored"} ELSE {})
-  /\ cbs' = 0 /\ ups' = 0
+  /\ cbs' = <<>> /\ ups' = 0
   /\ UNCHANGED <<kind, room, st, res, cancelled, wire, cand, dirty, memAt, has>>
 
 RetGood(c, o, cond) ==
@@ -184,8 +217,8 @@ OObs(r, j, me, addr) ==
                   \cup (IF me = Me /\ addr = r THEN {} ELSE {"C18_Me"})
   /\ UNCHANGED <<kind, room, st, res, cancelled, wire, cand, owed, dirty, memAt, mem, has, inflight, cbs, ups>>
 
-OInviteCb ==
-  /\ cbs' = cbs + 1
+OInviteCb(cb) ==
+  /\ cbs' = Append(cbs, cb)
   /\ UNCHANGED <<kind, room, st, res, cancelled, wire, cand, owed, dirty, memAt, mem, has, inflight, ups, viol>>
 OUserPres ==
   /\ ups' = ups + 1
@@ -199,8 +232,10 @@ StallClauses ==
   \cup {"C18_JoinCompletes" : c \in {c \in CallSet : Pending(c) /\ c \in owed /\ kind[c] \in JoinKinds}}
   \cup {"C18_LeaveReturns" : c \in {c \in CallSet : Pending(c) /\ c \in owed /\ kind[c] = "leave"}}
   \cup {"C18_RequestSent" : c \in {c \in CallSet : Pending(c) /\ c \notin cancelled /\ c \notin wire}}
+(* (while the room is in the middle of sending a stanza the environment still owes its    *)
+(* remainder: not a point at which a stall can be judged)                                   *)
 OQuiet ==
-  /\ viol' = viol \cup StallClauses
+  /\ viol' = viol \cup (IF Partial THEN {} ELSE StallClauses)
   /\ UNCHANGED <<kind, room, st, res, cancelled, wire, cand, owed, dirty, memAt, mem, has, inflight, cbs, ups>>
 
 (* a run may end only when every call has returned and every stanza has been processed *)
@@ -220,14 +255,19 @@ MCall(c, k, r) ==
        [] OTHER ->
             /\ depart' = IF "DepartLost" \in Dev THEN depart ELSE [depart EXCEPT ![r] = 0]
             /\ pc' = [pc EXCEPT ![c] = "pre"] /\ UNCHANGED <<managed, jflag, jbuf>>
-  /\ UNCHANGED sent
+  /\ UNCHANGED <<sent, hold>>
 
 Call(c, k, r) == OCall(c, k, r) /\ MCall(c, k, r) /\ nenv' = nenv + 1
 Cancel(c) == OCancel(c) /\ Pending(c) /\ c \notin cancelled /\ nenv' = nenv + 1 /\ UNCHANGED mvars
-Send(s) ==
+(* the room sends s in one piece, or (Splits) a first piece only and the remainder later; *)
+(* its byte stream is sequential: nothing else is sent before the remainder               *)
+Send(s, part) ==
   /\ (s.ty = "er" => st[s.call] # "idle" /\ \A i \in 1..Len(inflight) : ~ErrFor(inflight[i], s.call))
-  /\ Len(inflight) < MaxFlight
-  /\ OSend(s) /\ nenv' = nenv + 1 /\ UNCHANGED mvars
+  /\ Len(inflight) < MaxFlight /\ ~Partial
+  /\ OSend(s, part) /\ nenv' = nenv + 1 /\ UNCHANGED mvars
+Rest == Partial /\ ORest /\ nenv' = nenv + 1 /\ UNCHANGED mvars
+(* the serve loop has the whole of the oldest unprocessed stanza *)
+HeadWhole == inflight # <<>> /\ ~Head(inflight).part
 
 (* Channel.JoinPresence: put the hand-off entry into the join buffer (a stale entry of an   *)
 (* earlier, cancelled join is dropped; the pinned code blocked on it)                        *)
@@ -237,25 +277,25 @@ Enq(c) ==
      \/ /\ ("StaleBlocks" \in Dev => jbuf[r] = <<>>)
         /\ jbuf' = [jbuf EXCEPT ![r] = <<c>>] /\ pc' = [pc EXCEPT ![c] = "wait"]
      \/ /\ c \in cancelled /\ pc' = [pc EXCEPT ![c] = "ctx"] /\ UNCHANGED jbuf
-  /\ UNCHANGED <<ovars, managed, depart, jflag, sent>>
+  /\ UNCHANGED <<ovars, managed, depart, jflag, sent, hold>>
 
 (* the sender goroutine of Join/Leave writes the request *)
 SendReq(c) ==
   /\ pc[c] \notin {"idle", "enq"} /\ c \notin sent
-  /\ sent' = sent \cup {c} /\ OWire(c) /\ UNCHANGED <<nenv, managed, jbuf, depart, jflag, pc>>
+  /\ sent' = sent \cup {c} /\ OWire(c) /\ UNCHANGED <<nenv, managed, jbuf, depart, jflag, pc, hold>>
 
 LeaveSelect(c) ==
   /\ pc[c] = "pre" /\ pc' = [pc EXCEPT ![c] = "wait"]
-  /\ UNCHANGED <<ovars, managed, jbuf, depart, jflag, sent>>
+  /\ UNCHANGED <<ovars, managed, jbuf, depart, jflag, sent, hold>>
 
 CtxWake(c) ==
   /\ pc[c] = "wait" /\ c \in cancelled /\ pc' = [pc EXCEPT ![c] = "ctx"]
-  /\ UNCHANGED <<ovars, managed, jbuf, depart, jflag, sent>>
+  /\ UNCHANGED <<ovars, managed, jbuf, depart, jflag, sent, hold>>
 
 DepartWake(c) ==
   /\ pc[c] = "wait" /\ kind[c] = "leave" /\ depart[room[c]] = 1
   /\ pc' = [pc EXCEPT ![c] = "ok"] /\ depart' = [depart EXCEPT ![room[c]] = 0]
-  /\ UNCHANGED <<ovars, managed, jbuf, jflag, sent>>
+  /\ UNCHANGED <<ovars, managed, jbuf, jflag, sent, hold>>
 
 Ret(c) ==
   /\ pc[c] \in {"ok", "err", "ctx"}
@@ -264,7 +304,7 @@ Ret(c) ==
   /\ IF kind[c] = "leave" /\ pc[c] = "err"       \* the room refused the leave: not an occupant (pinned by TestPartError)
      THEN managed' = managed \ {room[c]} /\ jflag' = [jflag EXCEPT ![room[c]] = FALSE]
      ELSE UNCHANGED <<managed, jflag>>
-  /\ UNCHANGED <<nenv, jbuf, depart, sent>>
+  /\ UNCHANGED <<nenv, jbuf, depart, sent, hold>>
 
 Desc(h) == [ty |-> h.ty, room |-> h.room, nick |-> h.nick, call |-> h.call]
 
@@ -272,7 +312,7 @@ Matched(h) == h.room \in managed /\ (h.nick = Me \/ "BareLookup" \in Dev)
 
 (* HandlePresence, available: hand the address to a pending join, skipping stale entries *)
 HandleAv ==
-  /\ inflight # <<>> /\ Head(inflight).ty = "av"
+  /\ HeadWhole /\ Head(inflight).ty = "av"
   /\ LET h == Head(inflight) r == h.room IN
      IF r \in Rooms /\ Matched(h) /\ jbuf[r] # <<>>
      THEN LET e == Head(jbuf[r]) IN
@@ -283,11 +323,11 @@ HandleAv ==
              /\ jbuf' = [jbuf EXCEPT ![r] = <<>>] /\ UNCHANGED <<pc, jflag>>
      ELSE UNCHANGED <<pc, jflag, jbuf>>
   /\ OHandled(Desc(Head(inflight)))
-  /\ UNCHANGED <<nenv, managed, depart, sent>>
+  /\ UNCHANGED <<nenv, managed, depart, sent, hold>>
 
 (* HandlePresence, unavailable: forget the room and signal a pending leave *)
 HandleUn ==
-  /\ inflight # <<>> /\ Head(inflight).ty = "un"
+  /\ HeadWhole /\ Head(inflight).ty = "un"
   /\ LET h == Head(inflight) r == h.room IN
      IF r \in Rooms /\ Matched(h)
      THEN /\ managed' = managed \ {r} /\ jflag' = [jflag EXCEPT ![r] = FALSE]
@@ -295,27 +335,60 @@ HandleUn ==
                        THEN depart ELSE [depart EXCEPT ![r] = 1]
      ELSE UNCHANGED <<managed, jflag, depart>>
   /\ OHandled(Desc(Head(inflight)))
-  /\ UNCHANGED <<nenv, jbuf, pc, sent>>
+  /\ UNCHANGED <<nenv, jbuf, pc, sent, hold>>
 
-(* an error presence: the session hands it to the sender that registered the id, which *)
-(* passes it to the waiting call; otherwise it goes to the multiplexer and is ignored   *)
-HandleEr ==
-  /\ inflight # <<>> /\ Head(inflight).ty = "er"
-  /\ LET c == Head(inflight).call IN
-     /\ ~(c \in sent /\ pc[c] = "pre")              \* the serve loop waits for the call's select
-     /\ \/ /\ c \in sent /\ pc[c] = "wait" /\ pc' = [pc EXCEPT ![c] = "err"]
-        \/ /\ ~(c \in sent /\ pc[c] = "wait") \/ c \in cancelled
-           /\ UNCHANGED pc
+(* An error presence.  The session looks up its id as soon as it has read the start tag: if  *)
+(* the sender goroutine of that call is still waiting for a reply, the reply is handed to it  *)
+(* (ErHandOff) and the serve loop waits until it is closed.  The sender goroutine decodes the *)
+(* error - it needs the whole stanza for that - and offers it to the call, which takes it in  *)
+(* its select (ErDeliver); if the call's context has ended - the call was cancelled, or has    *)
+(* returned already - the goroutine gives up and closes the reply (ErDrop).  The deviation      *)
+(* ErrHandoverBlocks offers the error without watching the context (a plain channel send).    *)
+(* Otherwise the stanza goes to the multiplexer, where nobody claims it (ErToMux).            *)
+SenderWaits(c) == c \in sent /\ pc[c] \in {"pre", "wait"}
+ErHandOff ==
+  /\ inflight # <<>> /\ Head(inflight).ty = "er" /\ hold = None
+  /\ SenderWaits(Head(inflight).call)
+  /\ hold' = Head(inflight).call
+  /\ UNCHANGED <<ovars, managed, jbuf, depart, jflag, pc, sent>>
+ErDeliver ==
+  /\ HeadWhole /\ hold # None /\ pc[hold] = "wait"
+  /\ pc' = [pc EXCEPT ![hold] = "err"] /\ hold' = None
   /\ OHandled(Desc(Head(inflight)))
   /\ UNCHANGED <<nenv, managed, jbuf, depart, jflag, sent>>
+ErDrop ==
+  /\ HeadWhole /\ hold # None /\ (hold \in cancelled \/ pc[hold] \notin {"pre", "wait"})
+  /\ "ErrHandoverBlocks" \notin Dev
+  /\ hold' = None
+  /\ OHandled(Desc(Head(inflight)))
+  /\ UNCHANGED <<nenv, managed, jbuf, depart, jflag, pc, sent>>
+ErToMux ==
+  /\ HeadWhole /\ Head(inflight).ty = "er" /\ hold = None
+  /\ ~SenderWaits(Head(inflight).call) \/ Head(inflight).call \in cancelled
+  /\ OHandled(Desc(Head(inflight)))
+  /\ UNCHANGED <<nenv, mvars>>
+HandleEr == ErHandOff \/ ErDeliver \/ ErDrop \/ ErToMux
 
-InviteTarget(h) == IF "InvitePerMessage" \in Dev THEN 1 ELSE h.n
+(* Invitations: the multiplexer calls the client's message handler for the muc#user child and  *)
+(* the direct-invitation handler for the jabber:x:conference child, wherever they stand among  *)
+(* the children; each decodes its own payload and calls the application once per invitation.  *)
+(* Deviations: InvitePerMessage (one callback per message with a muc#user payload, holding its *)
+(* last <invite/> if any), InviteFirstChild / DirectFirstChild (the handler decodes whatever   *)
+(* element comes first in the message and fails unless that is its payload).                   *)
+FirstChild(h) == IF Len(h.lay) > 0 THEN h.lay[1] ELSE "-"
+MInvitations(h) ==
+  (CASE "InvitePerMessage" \in Dev ->
+          IF HasChild(h, "u")
+          THEN <<[kind |-> "med", ns |-> "user", k |-> h.n - 1, pw |-> PwOf(h), room |-> "-"]>> ELSE <<>>
+     [] "InviteFirstChild" \in Dev /\ FirstChild(h) # "u" -> <<>>
+     [] OTHER -> Mediated(h))
+  \o (IF "DirectFirstChild" \in Dev /\ FirstChild(h) # "c" THEN <<>> ELSE Direct(h))
 InviteCb ==
-  /\ inflight # <<>> /\ Head(inflight).ty = "inv" /\ cbs < InviteTarget(Head(inflight))
-  /\ OInviteCb /\ UNCHANGED <<nenv, mvars>>
+  /\ HeadWhole /\ Head(inflight).ty = "inv" /\ Len(cbs) < Len(MInvitations(Head(inflight)))
+  /\ OInviteCb(MInvitations(Head(inflight))[Len(cbs) + 1]) /\ UNCHANGED <<nenv, mvars>>
 HandleOther ==
-  /\ inflight # <<>> /\ Head(inflight).ty \in {"inv", "oth"}
-  /\ (Head(inflight).ty = "inv" => cbs = InviteTarget(Head(inflight)))
+  /\ HeadWhole /\ Head(inflight).ty \in {"inv", "oth"}
+  /\ (Head(inflight).ty = "inv" => Len(cbs) = Len(MInvitations(Head(inflight))))
   /\ OHandled(Desc(Head(inflight))) /\ UNCHANGED <<nenv, mvars>>
 
 MObs(r) ==
@@ -330,7 +403,8 @@ Next ==
   \/ /\ nenv < MaxEnv
      /\ \/ \E c \in CallSet, k \in {"join", "rejoin", "leave"}, r \in Rooms : Call(c, k, r)
         \/ \E c \in CallSet : Cancel(c)
-        \/ \E s \in Alphabet : Send(s)
+        \/ \E s \in Alphabet : Send(s, FALSE) \/ (Splits /\ Send(s, TRUE))
+        \/ Rest
   \/ \E c \in CallSet : Enq(c) \/ SendReq(c) \/ LeaveSelect(c) \/ CtxWake(c) \/ DepartWake(c) \/ Ret(c)
   \/ HandleAv \/ HandleUn \/ HandleEr \/ InviteCb \/ HandleOther
   \/ \E r \in Rooms : MObs(r)
@@ -345,15 +419,17 @@ C18_CtxErr == "C18_CtxErr" \notin viol                  \* the context's error o
 C18_LeaveReturns == "C18_LeaveOK" \notin viol            \* leave succeeds only after the unavailable self-presence
 (* stalls: when no step of the library is enabled no call is left waiting although its   *)
 (* context ended (C06) or its answer has been processed (C18 join completes / leave returns) *)
-C18_NoStall == ~ENABLED LibNext => StallClauses = {}
+C18_NoStall == ~ENABLED LibNext /\ ~Partial => StallClauses = {}
 C18_JoinedIffIn == {"C18_JoinedIffIn", "C18_Me"} \cap viol = {}
 C18_ForeignIgnored == "C18_ForeignIgnored" \notin viol
-C18_InviteExactlyOnce == "C18_InviteExactlyOnce" \notin viol
+C18_InviteExactlyOnce == "C18_InviteExactlyOnce" \notin viol          \* mediated invitations -> Client.HandleInvite
+C18_DirectInviteExactlyOnce == "C18_DirectInviteExactlyOnce" \notin viol  \* direct invitations -> the function given to muc.HandleInvite
 C18_All == viol = {}
 (* C06 (MUC part): one outcome per call is structural (st: pending -> done exactly once);  *)
 (* the serve loop is never wedged: while a stanza is unprocessed some step of the serve     *)
 (* loop, or of the call it is waiting for, is enabled                                       *)
+(* (a stanza whose remainder the room still owes is waited for legitimately)                *)
 C06_ServeNotWedged ==
-  inflight # <<>> => ENABLED (HandleAv \/ HandleUn \/ HandleEr \/ InviteCb \/ HandleOther
-                               \/ \E c \in CallSet : LeaveSelect(c))
+  HeadWhole => ENABLED (HandleAv \/ HandleUn \/ HandleEr \/ InviteCb \/ HandleOther
+                         \/ \E c \in CallSet : LeaveSelect(c))
 =============================================================================
